@@ -189,6 +189,7 @@ type Worker struct {
 	known       map[*Term]bool
 	maxDec      int
 	skipModel   *ssa.Function
+	x509        []*x509Call
 	opaqueN     int
 
 	// stats
@@ -758,6 +759,7 @@ func (w *Worker) runPath(fn *ssa.Function, prefix []Decision) {
 	w.mapOrderAny = false
 	w.allocCap = 0
 	w.hashes = w.hashes[:0]
+	w.x509 = w.x509[:0]
 	w.freshN = 0
 	w.opaqueN = 0
 	w.pathViol = 0
